@@ -62,7 +62,9 @@ def cases(draw, tier="quick"):
         t = draw(st.sampled_from(names))
         path = draw(st.sampled_from(PATHS)).split(".")
         mix = draw(st.integers(0, 9)) == 0
-        specs.append((["f%d" % i, "count", "value", "item_s"][i], t, path, mix))
+        key = draw(st.sampled_from([["f0", "userId", "class"], ["count", "2ndScore", "Item-Count"], ["value", "isOK", "type"],
+                                    ["item_s", "créé", "max"]][i]))
+        specs.append((key, t, path, mix))
     nsamples = draw(st.integers(1, 4))
     samples = []
     noise_keys = ["note", "meta_info", "extra"]
